@@ -271,7 +271,7 @@ PROPS = {
                      "a connection's Closed() channel stays closed once closed"],
     ),
     "C02": dict(
-        modules=['Drpc.Props.C02', 'Drpc.Props.Manager', 'Drpc.Props.ManagerSys', 'Drpc.Props.Request', 'Drpc.Tie.Manager', 'Drpc.Tie.C11'],
+        modules=['Drpc.Props.C02', 'Drpc.Props.Manager', 'Drpc.Props.ManagerSys', 'Drpc.Props.Request', 'Drpc.Props.Conn', 'Drpc.Tie.Manager', 'Drpc.Tie.C11'],
         suites=['e2e', 'meta'],
         rule="meta suite, scoping families: raw frame sequences (metadata for own / other / abandoned ids, repeated, undecodable) written to a real server-side Manager, the (rpc, id, metadata) each handler sees compared with Drpc.Metadata.newServerStream. e2e suite, families delivery+probe: sequences of 1-4 RPCs of all shapes on one connection (real drpcconn.Conn and drpcserver.ServeOne over the director's pipe, 8 configurations, flowing or randomly chunked transport), every payload tagged with (rpc, direction, sequence, length, crc) so that a message delivered to another RPC is recognised; earlier RPCs ended by close or cancel at various points (probe family) before the next begins. Counted: scenarios (#STATS distribution); oracles C02:isolation",
         trusted=COMMON_TRUST + ["Go runtime (goroutines, sync, channels) trusted; the two-endpoint behaviour is explored, not modelled: "
